@@ -7,11 +7,11 @@ from pytoniq_core.boc import Cell
 PROP = 'C01'
 TRACE_MODULE = 'C01Trace.tla'
 RULE = ('G: every heap of the CellDag machine within the cfg constants (TLC-enumerated, each replayed through the routes '
-        'builder/ctor/boc/copy/slice/tobuilder/reuse = builder used again after end_cell); random: every data length 0..1023 at least once, random shared DAGs, a '
+        'builder/ctor/boc/copy/slice/tobuilder/reuse = builder used again after end_cell/slice_part = partly read slice converted back to a cell/slice_from_cell); random: every data length 0..1023 at least once, random shared DAGs, a '
         'depth-1023 chain; distinct = distinct (route, cell content, child hashes) observations counted by reported hash+route')
 ASSUMPTIONS = ['TonSha.Sha256 anchored on FIPS vectors (ShaVectorsOk)', 'TonCell transcription of TVM 3.1.4-3.1.5',
                'record content (bits/refs/type) is read from the live objects through the public attributes']
-ROUTES = ['builder', 'ctor', 'boc', 'copy', 'slice', 'tobuilder', 'reuse']
+ROUTES = ['builder', 'ctor', 'boc', 'copy', 'slice', 'tobuilder', 'reuse', 'slice_part', 'slice_from_cell']
 
 
 def dag_cfg(maxcells, bitlens, maxrefs, exotics='{}', maxlvl=1, symbolic='FALSE', emit='TRUE', invs=True):
@@ -72,12 +72,39 @@ def via_route(heap, route, rng):
             objs = [o.begin_parse().to_cell() for o in objs]
         elif route == 'tobuilder':
             objs = [o.to_builder().end_cell() for o in objs]
+        elif route == 'slice_from_cell':
+            from pytoniq_core.boc import Slice
+            objs = [Slice.from_cell(o).to_cell() for o in objs] + [Slice.from_cell(o).copy().to_cell() for o in objs]
+        elif route == 'slice_part':
+            # a slice that has been read in part, converted back: the new cell holds the REMAINING bits and references and must
+            # report the hash of exactly that content (references read without any bit, bits read without any reference, both)
+            derived = []
+            for o in objs:
+                nb, nr = len(o.bits), len(o.refs)
+                plans = {(0, j) for j in range(1, nr + 1)} | {(k, 0) for k in (1, nb // 2, nb) if 0 < k <= nb}
+                if nb and nr:
+                    plans.add((rng.randint(1, nb), rng.randint(1, nr)))
+                for kb, kr in sorted(plans):
+                    s = o.begin_parse()
+                    # references first (nothing consumed from the data yet), then bits
+                    for _ in range(kr):
+                        s.load_ref()
+                    if kb:
+                        s.load_bits(kb)
+                    derived.append(s.to_cell())
+                    if kr and kb:
+                        s2 = o.begin_parse()
+                        s2.skip_bits(kb)
+                        for _ in range(kr):
+                            s2.load_ref()
+                        derived.append(s2.copy().to_cell())
+            objs = derived or objs
     except Exception as e:
         rec['err'] = type(e).__name__
         rec['cells'] = heap
         return rec
     # content as reported by the live objects; identity of children by object
-    if route in ('copy', 'slice', 'tobuilder'):
+    if route in ('copy', 'slice', 'tobuilder', 'slice_part', 'slice_from_cell'):
         # children are the ORIGINAL objects: project each derived cell together with what it references
         ph, roots, pobjs = ck.project(objs)
         objs = pobjs
